@@ -593,7 +593,9 @@ static void mode_realm(const vh::Args& a)
 		const RealmSpec& s = specs[c];
 		const F8MetaCntx& ctx = ctx_of(s.ctx);
 		R.distinct("realm_field", vh::mix(s.fnum, s.ctx[0]));
-		if (s.base == "char") {
+		if (s.type == "BOOLEAN") {	// the type's domain is Y/N only
+			realm_probe(s, ctx, "Y"); realm_probe(s, ctx, "N");
+		} else if (s.base == "char") {
 			for (int ch = 1; ch < 256; ++ch) realm_probe(s, ctx, std::string(1, (char)ch));
 		} else if (s.base == "int") {
 			long long lo = 1LL << 40, hi = -(1LL << 40);
@@ -724,7 +726,7 @@ static void lookup_ctx(const CtxSpec& cs, const F8MetaCntx& ctx)
 		std::vector<std::unique_ptr<MessageBase>> keep;
 		bool ok = true;
 		for (unsigned g : s.gpath) {
-			GroupBase *gb = mb->find_group(g);
+			GroupBase *gb = mb->find_add_group(g);
 			if (!gb) { R.viol("oracle:group-missing", "ctx=" + cn + " msg=" + s.msg + " group=" + std::to_string(g)); ok = false; break; }
 			keep.emplace_back(gb->create_group(true));
 			mb = keep.back().get();
@@ -744,7 +746,7 @@ static void lookup_ctx(const CtxSpec& cs, const F8MetaCntx& ctx)
 				if (fp.getPos((unsigned short)t) || fp.is_mandatory((unsigned short)t) || fp.is_group((unsigned short)t)) R.viol("oracle:traits-absent-key-has-attributes", sid + " tag=" + std::to_string(t));
 				continue;
 			}
-			if (fp.getPos((unsigned short)t) != (unsigned)it->second[0] || fp.is_mandatory((unsigned short)t) != (bool)it->second[1] || fp.is_group((unsigned short)t) != (bool)it->second[2])
+			if (fp.getPos((unsigned short)t) != (unsigned)it->second[0] || (it->second[1] != 2 && fp.is_mandatory((unsigned short)t) != (bool)it->second[1]) || fp.is_group((unsigned short)t) != (bool)it->second[2])
 				R.viol("oracle:traits-wrong-entry", sid + " tag=" + std::to_string(t) + " pos=" + std::to_string(fp.getPos((unsigned short)t)) + " want_pos=" + std::to_string(it->second[0])
 					+ " mand=" + std::to_string(fp.is_mandatory((unsigned short)t)) + "/" + std::to_string(it->second[1]) + " group=" + std::to_string(fp.is_group((unsigned short)t)) + "/" + std::to_string(it->second[2]));
 			auto pit = fp.get_presence().find((unsigned short)t);
